@@ -5,7 +5,7 @@ with the change and hold on that commit without it). Run after rules change."""
 import json, glob, os, subprocess, tempfile, shutil, sys, concurrent.futures as cf
 for k in ("GOTOOLCHAIN", "GOFLAGS", "GOPROXY", "GOSUMDB"):
     os.environ.pop(k, None)
-BIN = "/verif/bin/electlint"
+BIN = os.environ.get("BIN", "/verif/bin/electlint")
 
 def alarms(d):
     out = subprocess.run([BIN, "-p", "all", "-repo", d, "-no-evidence"], capture_output=True, text=True).stdout
